@@ -12,7 +12,7 @@ COMMON_TB = [
 ]
 
 NOT_YET = {}
-IN_PROGRESS = {"C13", "C16"}   # being built; not claimed until their checks pass
+IN_PROGRESS = set()
 
 PROPS = {
     "C20": {
@@ -169,16 +169,19 @@ PROPS = {
                       "operation and no operation from it on has finished in this or an earlier poll), C13_no_lost_wakeup (every delivery wakes; a Pending poll either woke the root waker "
                       "or left the task parked on an uncompleted Wait whose completion wakes it), C13_liveness_bound / C13_liveness_progress (a consumer polling only when entitled needs "
                       "at most items+SelfWakes+Waits+3 polls, bound attained; an idle consumer whose awaited events are all completed has received the completion), "
-                      "C13_monitor_accepts_model.  Tied to the code by running the same programs on the real generate() through an async interpreter, polled by hand with a counting root waker.",
+                      "C13_monitor_accepts_model and three monitor-soundness theorems (acceptance of ANY observation list implies order/exactly-once, back-pressure on the observed "
+                      "finished-operation log, wake-up discipline); C13_into_yielded_order / C13_into_complete_result for the two filter_map wrappers.  Tied to the code by running the same "
+                      "programs on the real generate() (raw, .into_yielded(), .into_complete()) through an async interpreter, polled by hand with a counting root waker.",
         "level_note": "Proved for the model, unbounded.  Model = code is sampled (quick: ~500 random programs of length <= 30 x 4 schedules; thorough adds all programs of length <= 4 over "
                       "5 operations x all schedules of length <= 8).  The futures-channel model is hand-written from its source (third party); real wakers and memory ordering are runtime.  "
                       "The state-machine clauses of C13 (progress before outcome, APoll boundaries) are in the SM model, not in this check.",
         "diff_meaning": "The theorems of Props/C13.v hold of the model's observation list (poll results, wake flags, finished-operation log, parked-on event, is_terminated); "
                         "code 1: the real generator's observations differ from the model's on this program/schedule; code 2: they violate the executable monitor of "
                         "order / exactly-once / back-pressure / no-lost-wake-up (proved to accept every model run).",
-        "rule": "10 fixed shapes; n random programs (length 0..30, per-program operation weights, items 0..49, events 0..3) x 4 schedules each: executor (poll when entitled, complete the "
-                "awaited event when idle; always runs to None), executor with unsolicited early completions, two random Poll/Complete mixes; thorough adds 781 programs x 256 schedules "
-                "exhaustively.  distinct = distinct (program, return, schedule); non-trivial = at least one Yielded or the Complete was observed.",
+        "rule": "10 fixed shapes x 3 consumption modes; n random programs (length 0..30, per-program operation weights, items 0..49, events 0..3) x 4 schedules each on the raw stream: "
+                "executor (poll when entitled, complete the awaited event when idle; always runs to None), executor with unsolicited early completions, two random Poll/Complete mixes; plus one "
+                "executor-or-random schedule each through .into_yielded() and .into_complete(); thorough adds 781 programs (length <= 4 over 5 operations) x 256 schedules (all of length 8 over "
+                "{Poll, Complete 0}, which cover every shorter one as a prefix) exhaustively on the raw stream and the 156 programs of length <= 3 through both wrappers.  distinct = distinct (program, return, schedule); non-trivial = at least one Yielded or the Complete was observed.",
         "exhaustive": {"thorough": True},
         "assumptions": ["the harness's Wait/SelfWake futures and counting root waker follow the std::task contract",
                         "futures-channel 0.3.34 / futures-util 0.3.34 as locked in /repo/Cargo.lock"],
@@ -205,6 +208,10 @@ PROPS = {
                         "decoded differently, or an accept/reject difference; code 2: the real parser panicked or overflowed its stack on this input.",
         "rule": "fixed: recursion-limit probes at 127-lvl-1..+2 nesting for each of the four kept positions (arrays and objects), 127..5000-deep nesting in ignored "
                 "positions, 1..5000 unclosed brackets at top/ignored/kept positions, 2,000,000 unclosed brackets (totality only), 46 hand-written rule probes; "
+                "136 JSON fragments (number, literal, string/escape, structure grammar incl. invalid ones) x 9 placements (typed number, typed string, kept extension, "
+                "cohort, ignored, ignored-nested, ignored inside an app, key, whole document); one document with every struct and, for every field of every struct: "
+                "removed, duplicated, replaced by each of 13 JSON shapes (null/bool/ints at the u32/u64 boundaries/negative/-0/float/string/array/object), plus every "
+                "struct in array form of exact/short/long length; "
                 "n grammar documents from an independent generator (0-4 apps/urls/actions/packages, every optional field absent/null/empty/present, known and unknown "
                 "statuses, sizes around 2^32, 2^63, 2^64, extension attributes of every JSON type, unknown keys in plain structs, array form of plain structs, shuffled keys, "
                 "random white space, \\u escapes incl. surrogate pairs, XSSI prefix on every third); truncation at every position of 2 small documents (thorough: 12, plus "
@@ -234,5 +241,71 @@ PROPS = {
                 "distinct = distinct implementation trace; non-trivial = at least one request",
         "assumptions": ["harness trait implementations follow the trait contracts", "p256/sha2 crates implement ECDSA/SHA-256"],
         "trusted_base": COMMON_TB + ["modelled, not verified: state_machine.rs; the verifier itself is C01's model"],
+    },
+    "C04": {
+        "run": ["EvalProps"], "functional": False,
+        "n": {"quick": 300, "thorough": 6000},
+        "level_text": "Theorems: the result lists the response's apps in order and the i-th offered app carries the i-th installer result, all others NoUpdate (all responses, all result vectors).  The remaining clauses are decided by trace equality between the state-machine model (Model/SM.v, whose traces are the subject of the "
+                      "monitor theorems of C02/C05/C06/C07) and the real state machine on the property's projection of the trace: the event stream (every state, schedule, protocol-state, result, progress, server-response and installer-error event, in order).",
+        "level_note": "PARTIAL at the level of theorems (stated in Props/C04.v): event-shape clauses (first/last events, the iff for each announced state, Idle/WaitingForReboot) are not yet theorems.  Model = code is sampled on scripted runs.",
+        "diff_meaning": "The implementation's projection of the trace differs from the model's on this scripted environment (or it panicked / hung).",
+        "rule": "random scripted environments over transport/HTTP/parse outcomes, multi-app responses with any subset offered, unknown and duplicate app ids, error/restricted statuses, shuffled order, 3 policy decisions, per-app installer results, reboot needed or not; distinct = distinct implementation trace; non-trivial = at least one request or completed check",
+        "assumptions": ["harness trait implementations follow the trait contracts", "Storage trait contract: writes cached until commit, commit atomic"],
+        "trusted_base": COMMON_TB + ["modelled, not verified: state_machine.rs, update_check.rs, builder.rs, app_set.rs, common.rs"],
+    },
+    "C08": {
+        "run": ["EvalProps"], "functional": False,
+        "n": {"quick": 300, "thorough": 6000},
+        "level_text": "Theorems: storage written by Context::persist loads back to exactly the persisted failure count, poll interval and last-contact time at microsecond precision (never a mixture); the counter saturates.  The remaining clauses are decided by trace equality between the state-machine model (Model/SM.v, whose traces are the subject of the "
+                      "monitor theorems of C02/C05/C06/C07) and the real state machine on the property's projection of the trace: storage operations with their success flags, every clock reading, every policy question with the schedule/protocol state it is shown, and the schedule/protocol/result/state events.",
+        "level_note": "PARTIAL at the level of theorems (stated in Props/C08.v): the counting rules, commit-when-idle and crash consistency are not yet theorems; the crash-at-every-interaction rebuild harness of DESIGN C08 is not built yet (trace equality on the store projection stands in).  Model = code is sampled on scripted runs.",
+        "diff_meaning": "The implementation's projection of the trace differs from the model's on this scripted environment (or it panicked / hung).",
+        "rule": "random scripted histories of check and ping outcomes without storage faults; restarts are exercised by C07/C18's stored values; distinct = distinct implementation trace; non-trivial = at least one request or completed check",
+        "assumptions": ["harness trait implementations follow the trait contracts", "Storage trait contract: writes cached until commit, commit atomic"],
+        "trusted_base": COMMON_TB + ["modelled, not verified: state_machine.rs, update_check.rs, builder.rs, app_set.rs, common.rs"],
+    },
+    "C09": {
+        "run": ["EvalProps"], "functional": False,
+        "n": {"quick": 300, "thorough": 6000},
+        "level_text": "Theorems: cohort merge is field-wise (present, even empty, replaces; absent keeps); apps not named are unchanged, named apps take the first naming response's cohort merge and day number; ids stable.  The remaining clauses are decided by trace equality between the state-machine model (Model/SM.v, whose traces are the subject of the "
+                      "monitor theorems of C02/C05/C06/C07) and the real state machine on the property's projection of the trace: request bodies (cohort fields, ad/rd), per-app storage writes, the apps shown to the policy.",
+        "level_note": "PARTIAL at the level of theorems (stated in Props/C09.v): 'only on success', 'next request sends exactly these values' and 'committed with the result' are not yet theorems.  Model = code is sampled on scripted runs.",
+        "diff_meaning": "The implementation's projection of the trace differs from the model's on this scripted environment (or it panicked / hung).",
+        "rule": "random histories of responses carrying every subset of the three cohort fields (present-empty vs absent), any daystart, any subset of a 1-3 app set, failed checks, pings, stored PersistedApp values incl. malformed ones; distinct = distinct implementation trace; non-trivial = at least one request or completed check",
+        "assumptions": ["harness trait implementations follow the trait contracts", "Storage trait contract: writes cached until commit, commit atomic"],
+        "trusted_base": COMMON_TB + ["modelled, not verified: state_machine.rs, update_check.rs, builder.rs, app_set.rs, common.rs"],
+    },
+    "C10": {
+        "run": ["EvalProps"], "functional": False,
+        "n": {"quick": 300, "thorough": 6000},
+        "level_text": "Theorems: an event report carries one event for exactly the known apps offered an update, in app-set order, each with the app's canonical current version as previous and the offered manifest version as next.  The remaining clauses are decided by trace equality between the state-machine model (Model/SM.v, whose traces are the subject of the "
+                      "monitor theorems of C02/C05/C06/C07) and the real state machine on the property's projection of the trace: requests (bytes and structured content), lost-event metrics, installer calls, result and state events.",
+        "level_note": "PARTIAL at the level of theorems (stated in Props/C10.v): which reports are sent on which path, lost-event accounting and outcome independence are not yet theorems.  Model = code is sampled on scripted runs.",
+        "diff_meaning": "The implementation's projection of the trace differs from the model's on this scripted environment (or it panicked / hung).",
+        "rule": "random scripted environments with update offers for any subset of 1-3 apps, plan failure, 3 policy decisions, per-app results, and every delivery outcome (ok, transport, HTTP error, forged) of each report; distinct = distinct implementation trace; non-trivial = at least one request or completed check",
+        "assumptions": ["harness trait implementations follow the trait contracts", "Storage trait contract: writes cached until commit, commit atomic"],
+        "trusted_base": COMMON_TB + ["modelled, not verified: state_machine.rs, update_check.rs, builder.rs, app_set.rs, common.rs"],
+    },
+    "C12": {
+        "run": ["EvalProps"], "functional": False,
+        "n": {"quick": 300, "thorough": 6000},
+        "level_text": "Theorems: the timer branch of the wait is taken only after every armed timer has fired (any order), a control request wakes the machine without a timer; partial firings leave it waiting.  The remaining clauses are decided by trace equality between the state-machine model (Model/SM.v, whose traces are the subject of the "
+                      "monitor theorems of C02/C05/C06/C07) and the real state machine on the property's projection of the trace: policy questions, schedule announcements, every timer armed (kind and value), state events, requests (pings), reboot.",
+        "level_note": "PARTIAL at the level of theorems (stated in Props/C12.v): 'ask, announce, arm exactly' and the reboot-wait rules are not yet theorems.  Model = code is sampled on scripted runs.",
+        "diff_meaning": "The implementation's projection of the trace differs from the model's on this scripted environment (or it panicked / hung).",
+        "rule": "random scripts with all timing shapes, minimum wait present/absent, firing orders and proper subsets, control requests, reboot waits with pings and re-asked reboot questions; distinct = distinct implementation trace; non-trivial = at least one request or completed check",
+        "assumptions": ["harness trait implementations follow the trait contracts", "Storage trait contract: writes cached until commit, commit atomic"],
+        "trusted_base": COMMON_TB + ["modelled, not verified: state_machine.rs, update_check.rs, builder.rs, app_set.rs, common.rs"],
+    },
+    "C18": {
+        "run": ["EvalProps"], "functional": False,
+        "n": {"quick": 300, "thorough": 6000},
+        "level_text": "Theorems: the waited-for-reboot duration is finish -> start of this state machine, reported only with consistent clocks and independent of reporting delay; the install-attempt counter saturates.  The remaining clauses are decided by trace equality between the state-machine model (Model/SM.v, whose traces are the subject of the "
+                      "monitor theorems of C02/C05/C06/C07) and the real state machine on the property's projection of the trace: storage operations, clock readings, installer calls, reboot-needed/can-start questions, and the attempt / waited / first-seen metrics.",
+        "level_note": "PARTIAL at the level of theorems (stated in Props/C18.v): first-seen persistence, counter growth/reset, finish-before-reboot and exactly-once reporting are not yet theorems.  Model = code is sampled on scripted runs.",
+        "diff_meaning": "The implementation's projection of the trace differs from the model's on this scripted environment (or it panicked / hung).",
+        "rule": "random scripted histories of install attempts (plan ids from a small alphabet, per-app results, manifest version present or not) with stored first-seen/finish/target-version values of every kind, clock steps; distinct = distinct implementation trace; non-trivial = at least one request or completed check",
+        "assumptions": ["harness trait implementations follow the trait contracts", "Storage trait contract: writes cached until commit, commit atomic"],
+        "trusted_base": COMMON_TB + ["modelled, not verified: state_machine.rs, update_check.rs, builder.rs, app_set.rs, common.rs"],
     },
 }
